@@ -371,6 +371,217 @@ def r19_5(prog, chk, classes):
     chk.floor("R19.5", n, 50)
 
 
+CREATE_COLS = ("addColumnsByConstant", "addColumns", "addColumnsByVVD", "addColumnsRandom", "addSelection", "addSelectionByRanks")
+DELETE_COLS = ("deleteColumnByUID", "deleteColumnsByUID", "deleteColumnsByUIDRange")
+R196_UNITS = ["src/Stats/Classical.cpp"]
+
+
+def r19_6(prog, chk):
+    """working columns of the statistics / calculator code: a column created into a local identifier that the same function
+    deletes somewhere is temporary; every path from its creation to a SUCCESSFUL return must delete it (consistent on the
+    repeated conditions: `if (A||B) create ... if (A) delete` leaks for B)"""
+    n = 0
+    for f in sorted(prog.funcs, key=lambda x: (x.file, x.line)):
+        if f.cfg is None or not f.d.get("main"):
+            continue
+        creates = {}
+        for x in f.walk():
+            tgt = rhs = None
+            if x["k"] == "VarDecl" and x.get("c"):
+                tgt, rhs = (x["d"], x["n"]), x["c"][0]
+            elif x["k"] == "Assign" and x.get("op") == "=" and x["c"][0] is not None and x["c"][0]["k"] == "DeclRefExpr" and x["c"][0].get("dk") == "var":
+                tgt, rhs = (x["c"][0]["d"], x["c"][0]["n"]), x["c"][1]
+            if rhs is not None and rhs["k"] == "MCall" and (rhs.get("callee") or "").split("::")[-1] in CREATE_COLS and (rhs.get("cls") or "").startswith("Db"):
+                creates.setdefault(tgt, []).append(x)
+        if not creates:
+            continue
+        g = CFG(f)
+        for (d, name), sites in sorted(creates.items(), key=lambda kv: kv[0][1]):
+            dels = [c for c in f.calls() if (c.get("callee") or "").split("::")[-1] in DELETE_COLS and
+                    any(a is not None and any(y["k"] == "DeclRefExpr" and y.get("d") == d for y in walk(a)) for a in call_args(c))]
+            if not dels:
+                continue                         # never deleted here: an output of the function
+            if any(r["k"] == "Return" and r.get("c") and r["c"][0] is not None and any(y["k"] == "DeclRefExpr" and y.get("d") == d for y in walk(r["c"][0]))
+                   for r in f.walk()):
+                continue                         # the identifier is returned: an output (deleted only on error paths)
+
+            def edge_ok(blk, k, s_, d=d):
+                c = g.cond(blk["b"])
+                if c is None or len(blk["s"]) != 2:
+                    return True
+                core, pol = peel_cond(c)
+                if core is not None and core["k"] == "BinOp" and core.get("op") in (">", ">=", "<") and core["c"][0] is not None and \
+                        core["c"][0].get("d") == d and core["c"][1] is not None and core["c"][1]["k"] == "Int" and core["c"][1]["v"] == 0:
+                    valid = core["op"] in (">", ">=")          # identifier convention: the created column has a valid identifier
+                    return ((k == 0) == pol) == valid
+                return True
+
+            def success(r):
+                v = (r.get("c") or [None])[0]
+                if v is None:
+                    return True
+                if v["k"] == "Int":
+                    return v["v"] == 0 if f.ret.startswith("int") else v["v"] != 0
+                if v["k"] == "Bool":
+                    return v["v"] is True
+                return True
+            isdel = lambda x: any(x["i"] == c["i"] for c in dels)
+            for site in sites:
+                n += 1
+                chk.analysed(f)
+                res = g.path_through(site, is_barrier=isdel, edge_ok=edge_ok, exit_pred=success)
+                ok = res is None
+                chk.ob("R19.6", "%s: working column `%s` is deleted on every path to a successful return" % (f.name, name), f.loc(site), ok,
+                       detail=None if ok else "the function creates a working column, deletes it under a narrower condition than it creates it, and "
+                       "returns success: the data base gains an undocumented variable (case: %s)" % ", ".join(
+                           "%s is %s" % (k, v) for k, v in sorted(res[1].items())) if res else None,
+                       key="R19.6|%s|%s" % (f.name, name), path=None if ok else g.describe(res[0]))
+    chk.floor("R19.6", n, 2)
+
+
+def _field_of_this(n):
+    while n is not None and n["k"] == "Cast":
+        n = n["c"][0]
+    if n is not None and n["k"] == "MemberExpr" and n.get("mk") == "field" and (not n.get("c") or n["c"][0] is None or n["c"][0]["k"] == "This"):
+        return n["n"]
+    return None
+
+
+def _guards(f, node):
+    """[(condition, polarity)] of the If statements enclosing node, and [loop] of the enclosing For statements"""
+    conds, loops = [], []
+    child = node
+    for a in f.ancestors(node):
+        if a["k"] == "If":
+            c = a["c"]
+            # children: cond, then, else (extractor order)
+            if len(c) >= 2 and c[1] is child:
+                conds.append((c[0], True))
+            elif len(c) >= 3 and c[2] is child:
+                conds.append((c[0], False))
+        elif a["k"] in ("For", "While"):
+            loops.append(a)
+        child = a
+    return conds, loops
+
+
+def r19_7(prog, chk):
+    """the registry of created variables: every list filled by _storeInVariableList is emptied by _cleanVariableDb for the same
+    status, on the data base it was registered for, under no other condition than the status and the list itself"""
+    store = prog.fn("ACalcDbToDb::_storeInVariableList")
+    clean = prog.fn("ACalcDbToDb::_cleanVariableDb")
+    chk.analysed(store)
+    chk.analysed(clean)
+    table = {}
+    for c in store.calls():
+        if (c.get("callee") or "").endswith("::push_back"):
+            lst = _field_of_this(call_obj(c))
+            if lst is None:
+                continue
+            conds, _ = _guards(store, c)
+            db = perm = None
+            for cond, pol in conds:
+                t = show(cond)
+                if t == "whichDb == 1":
+                    db = "_dbin" if pol else "_dbout"
+                elif t == "status == 1":
+                    perm = pol
+            table[lst] = (db, perm)
+    chk.floor("R19.7-lists", len(table), 4)
+    n = 0
+    for lst, (db, perm) in sorted(table.items()):
+        dels = []
+        for c in clean.calls():
+            if (c.get("callee") or "").split("::")[-1] in DELETE_COLS and any(_field_of_this(y) == lst for a in call_args(c) for y in walk(a)):
+                dels.append(c)
+        n += 1
+        ok = len(dels) >= 1
+        detail = None
+        where = clean.loc()
+        if not ok:
+            detail = "no deletion of the columns registered in %s: they stay in the data base after %s" % (lst, "a failure" if perm else "the run")
+        for c in dels:
+            where = clean.loc(c)
+            o = call_obj(c)
+            if _field_of_this(o) != db:
+                ok, detail = False, "the columns registered for %s are deleted from %s" % (db, show(o))
+            conds, loops = _guards(clean, c)
+            loopvars = {x["d"] for l in loops for x in walk(l["c"][0]) if x is not None and x["k"] == "VarDecl"} if loops else set()
+            for cond, pol in conds:
+                t = show(cond)
+                if t == "status == 1":
+                    if pol != perm:
+                        ok, detail = False, "%s is emptied for the wrong status" % lst
+                    continue
+                extra = []
+                for y in walk(cond):
+                    if y["k"] == "MemberExpr" and y.get("mk") == "field" and _field_of_this(y) != lst:
+                        extra.append(y["n"])
+                    if y["k"] == "DeclRefExpr" and y.get("dk") in ("var", "parm") and y.get("d") not in loopvars and y["n"] != "status":
+                        extra.append(y["n"])
+                if extra:
+                    ok, detail = False, "the deletion of the columns of %s also depends on %s (`%s`): registered columns survive when it does not hold" % (
+                        lst, ", ".join(sorted(set(extra))), t)
+            for l in loops:
+                lc = l["c"][1]
+                bad = [y["n"] for y in walk(lc) if y["k"] == "MemberExpr" and y.get("mk") == "field" and _field_of_this(y) != lst]
+                lit = [y for y in walk(lc) if y["k"] == "Int"]
+                if bad or lit or not any(_field_of_this(y) == lst for y in walk(lc)):
+                    ok, detail = False, "the deletion loop over %s is bounded by `%s`, not by the size of the list" % (lst, show(lc))
+                init = l["c"][0]
+                if init is not None and not any(y["k"] == "Int" and y["v"] == 0 for y in walk(init)):
+                    ok, detail = False, "the deletion loop over %s does not start at 0" % lst
+        chk.ob("R19.7", "_cleanVariableDb deletes every column registered in %s (%s, %s)" % (lst, db, "status 1" if perm else "status 2"),
+               where, ok, detail=detail, key="R19.7|%s" % lst)
+    chk.floor("R19.7", n, 4)
+
+
+def r19_8(prog, chk, classes):
+    """'rank or -1' members of the calculators: a member initialised to -1 in the constructor encodes 'not set'; rank 0 is a
+    legal value, so the member is tested with `>= 0` / `< 0` (or against -1), never with `> 0` / `<= 0`"""
+    n = 0
+    for K in sorted(classes):
+        sent = set()
+        for f in prog.funcs:
+            if f.cls != K or f.kind != "ctor":
+                continue
+            for init in f.d.get("inits") or []:
+                v = init.get("init")
+                while v is not None and v["k"] == "Cast":
+                    v = v["c"][0]
+                if v is not None and init.get("field") and v["k"] == "Int" and v["v"] == -1:
+                    sent.add(init["field"])
+                if v is not None and init.get("field") and v["k"] == "UnOp" and v.get("op") == "-" and v["c"][0] is not None and v["c"][0]["k"] == "Int" and v["c"][0]["v"] == 1:
+                    sent.add(init["field"])
+        # only the members that select the mode of the run in a stage function (status of the created variables, outputs)
+        staged = set()
+        for f in prog.funcs:
+            if f.cls == K and f.body is not None and f.short in ("_check", "_preprocess", "_postprocess", "_rollback"):
+                for x in f.walk():
+                    if x["k"] == "BinOp" and _field_of_this(x["c"][0]) in sent:
+                        staged.add(_field_of_this(x["c"][0]))
+        sent &= staged
+        if not sent:
+            continue
+        for f in sorted(prog.funcs, key=lambda x: (x.file, x.line)):
+            if f.cls != K or f.body is None:
+                continue
+            for x in f.walk():
+                if x["k"] != "BinOp" or x.get("op") not in (">", ">=", "<", "<=") or x["c"][1] is None or x["c"][1]["k"] != "Int" or x["c"][1]["v"] != 0:
+                    continue
+                fld = _field_of_this(x["c"][0])
+                if fld not in sent:
+                    continue
+                n += 1
+                chk.analysed(f)
+                ok = x["op"] in (">=", "<")
+                chk.ob("R19.8", "%s: `%s` treats rank 0 as a set value of %s::%s" % (f.name, show(x), K, fld), f.loc(x), ok,
+                       detail=None if ok else "%s is -1 when not set and a rank (0 included) otherwise: `%s` treats rank 0 as 'not set', so the run "
+                       "for the first sample takes the other mode (different status of the created variables / different outputs)" % (fld, show(x)),
+                       key="R19.8|%s|%s|%s" % (f.name, fld, x["op"]))
+    chk.floor("R19.8", n, 2)
+
+
 def main(tier):
     chk = Check("C19", tier,
                 "Static roll-back discipline of the ACalculator hierarchy: stage failures reach the roll-back, every column "
@@ -378,7 +589,7 @@ def main(tier):
                 "restored on success are restored on failure, failing branches of stage functions report failure. Necessary "
                 "conditions of 'fails and leaves the data bases untouched'; does NOT decide that pre-existing values are "
                 "unchanged nor the old-style (non-calculator) functions.")
-    units = [os.path.join(REPO, u) for u in UNITS]
+    units = [os.path.join(REPO, u) for u in UNITS + R196_UNITS]
     if tier == "thorough":
         units = facts.all_units()
     d = extract(units, "C19-" + tier)
@@ -395,4 +606,7 @@ def main(tier):
     r19_2(prog, chk, set(classes))
     r19_3_4(prog, chk, classes)
     r19_5(prog, chk, set(classes))
+    r19_6(prog, chk)
+    r19_7(prog, chk)
+    r19_8(prog, chk, set(classes))
     return chk.finish()
